@@ -1053,7 +1053,7 @@ def DM(input: optical_signal, D: float, retH: bool = False):
         raise TypeError("The input must be an optical signal!")
 
     # Convert units of D:
-    D *= 1e-12**2
+    D = D * 1e-12**2
 
     H = np.exp(-1j * input.w() ** 2 * D / 2)
 
